@@ -34,6 +34,7 @@ var _ net.Listener = (*GRPCServerMuxer)(nil)
 // unblocked when a knock is received for the matching stream ID.
 type GRPCServerMuxer struct {
 	addr   net.Addr
+	ln     net.Listener
 	logger hclog.Logger
 
 	sessionErrCh chan error
@@ -48,6 +49,7 @@ type GRPCServerMuxer struct {
 func NewGRPCServerMuxer(logger hclog.Logger, ln net.Listener) *GRPCServerMuxer {
 	m := &GRPCServerMuxer{
 		addr:   ln.Addr(),
+		ln:     ln,
 		logger: logger,
 
 		sessionErrCh: make(chan error),
@@ -144,12 +146,20 @@ func (m *GRPCServerMuxer) Addr() net.Addr {
 }
 
 func (m *GRPCServerMuxer) Close() error {
+	// The muxer took over the underlying listener, so it also has to close
+	// it, e.g. to remove its Unix socket file.
+	lnErr := m.ln.Close()
+
 	session, err := m.session()
 	if err != nil {
 		return err
 	}
 
-	return session.Close()
+	if err := session.Close(); err != nil {
+		return err
+	}
+
+	return lnErr
 }
 
 func (m *GRPCServerMuxer) Enabled() bool {
